@@ -434,6 +434,15 @@ def check_real(rep, run, todo, F, idx, kind, X, p):
         rep.violation(f"fit did not terminate: {e}", info)
         return
     comps = rec.comps
+    if len(comps) < K and all(np.isfinite(np.asarray(c["calls"][-1][1][0], float)).all() for c in comps if c["calls"]):
+        # every requested component is extracted by at least one update of its own residual; fewer recorded components with
+        # finite vectors means the deflation stopped early and the remaining "components" were never computed
+        rep.case(("real", X.tobytes(), repr(p)), kind=f"real/{kind}")
+        imgs0 = np.array(est.eigenfunctions.values, dtype=float)
+        norms = [float(np.sqrt(np.sum(imgs0[k] ** 2))) for k in range(imgs0.shape[0])]
+        rep.violation(f"only {len(comps)} of the {K} requested components were extracted (Frobenius norms of the reported eigenimages "
+                      f"{[round(v, 6) for v in norms]}): the others are not unit-norm rank-one tensors", info)
+        return
     counts = [len(c["calls"]) for c in comps] + [0] * (K - len(comps))
     S = np.array(est.transform(d, method="FCPTPA"), dtype=float)
     imgs = np.array(est.eigenfunctions.values, dtype=float)
